@@ -47,6 +47,12 @@ CHECKS = {
          "trace validation (panic = unmatched event) + TLA+ invariants"),
 }
 
+CHECKS["C20"] = ("PList.tla models the persistent history list with refcounts and two drop disciplines; TLC proves the iterative discipline stack-bounded and the "
+                 "recursive one not; the code is bound to the iterative discipline by process-level observation (ladder of capture-free games up to 400k/1.2M turns on a "
+                 "2 MiB stack, stack-size bisection at two lengths, two build profiles) validated by DropTrace.tla; first 3000 turns trace-validated", "6.C20",
+                 "TLA+ PList model + TLC; conformance by process-level observation validated by TLC")
+
+
 def main():
     checks = []
     for pid in sorted(CHECKS):
@@ -57,7 +63,7 @@ def main():
             "thorough_cmd": "./check %s --tier thorough" % pid,
             "evidence_file": "/verif/evidence/%s.json" % pid,
             "replay_cmd_template": "./check %s --replay {path}" % pid,
-            "engine": "tla-probe" if pid in ("C16", "C17") else "tla-trace",
+            "engine": "tla-probe" if pid in ("C16", "C17", "C20") else "tla-trace",
             "level_claimed": {"category": "model_checking", "text": text, "design_ref": "DESIGN.md section " + ref},
             "level_note": NOTE_T,
             "technique": tech,
